@@ -25,7 +25,17 @@ EXTENDS JsAst
 
 (* canonical node: raw fields + marks *)
 CN(t, v, a, c, id) ==
-  [t |-> t, v |-> v, a |-> a, c |-> c, id |-> id, h |-> "", hw |-> "", o |-> <<>>, bad |-> ""]
+  [t |-> t, v |-> v, a |-> a, c |-> c, id |-> id, h |-> "", hw |-> "", o |-> <<>>, bad |-> "",
+   l |-> 0, k |-> 0, el |-> 0, mf |-> FALSE, mx |-> FALSE, mm |-> FALSE, ml |-> 0, mk |-> 0]
+
+(* canonical node that stands for the raw node n: keeps its position and its source-map lookup *)
+CNof(n, c) ==
+  [t |-> n.t, v |-> n.v, a |-> n.a, c |-> c, id |-> n.id, h |-> "", hw |-> "", o |-> <<>>, bad |-> "",
+   l |-> IF "l" \in DOMAIN n THEN n.l ELSE 0, k |-> IF "k" \in DOMAIN n THEN n.k ELSE 0,
+   el |-> IF "el" \in DOMAIN n THEN n.el ELSE 0,
+   mf |-> IF "mf" \in DOMAIN n THEN n.mf ELSE FALSE, mx |-> IF "mx" \in DOMAIN n THEN n.mx ELSE FALSE,
+   mm |-> IF "mm" \in DOMAIN n THEN n.mm ELSE FALSE,
+   ml |-> IF "ml" \in DOMAIN n THEN n.ml ELSE 0, mk |-> IF "mk" \in DOMAIN n THEN n.mk ELSE 0]
 
 NullCN == CN("Null", "", "", <<>>, 0)
 Bad(why) == [CN("_Bad", why, "", <<>>, 0) EXCEPT !.bad = why]
@@ -283,7 +293,7 @@ Er(n, env) ==
          \* ...t  with  t = [...E]   ==>   ...E
          LET r == StripParen(env.b[n.c[1].v].raw) IN
          CN("_arg", "", "spread", <<AddOrigin(Er(r.c[1].c[1].c[1], env), n.c[1].v)>>, 0)
-    [] n.t = "_L" /\ IsStmtList(n) -> CN("_L", "", "", ErStmts(n.c, env, <<>>), n.id)
+    [] n.t = "_L" /\ IsStmtList(n) -> CNof(n, ErStmts(n.c, env, <<>>))
     [] n.t = "ArrowFunctionExpression" ->
          \* => { return E }   ==>   => E      (after injected declarations are gone)
          LET ps == Er(n.c[1], env)
@@ -291,9 +301,9 @@ Er(n, env) ==
              stmts == IF body.t = "BlockStatement" THEN ErStmts(body.c[1].c, env, <<>>) ELSE <<>>
          IN IF body.t = "BlockStatement" /\ Len(stmts) = 1
                /\ stmts[1].t = "ReturnStatement" /\ stmts[1].c[1].t # "Null"
-            THEN CN(n.t, n.v, n.a, <<ps, stmts[1].c[1]>>, n.id)
-            ELSE CN(n.t, n.v, n.a, <<ps, Er(body, env)>>, n.id)
-    [] OTHER -> CN(n.t, n.v, n.a, ErKids(n, env), n.id)
+            THEN CNof(n, <<ps, stmts[1].c[1]>>)
+            ELSE CNof(n, <<ps, Er(body, env)>>)
+    [] OTHER -> CNof(n, ErKids(n, env))
 
 (* does identifier x stand for the guard variable g (directly or through t1 = t0 aliases)? *)
 IsHeadAlias(x, env, g) ==
